@@ -32,6 +32,8 @@ structure Cfg where
   pair : Nat → Nat
   /-- the per-session copies of a fan-out -/
   copies : Nat → List Nat
+  /-- the fan-out a message is a per-session copy of -/
+  grp : Nat → Option Nat
 
 structure FMon where
   returned : List (Nat × Why) := []
@@ -43,14 +45,24 @@ structure FMon where
 /-- Is `k` a synchronous message on the pair of `j`, other than `j` itself? -/
 def Cfg.obliges (cfg : Cfg) (j : Nat) (k : Nat) : Bool := (cfg.kind k).sync && cfg.pair k == cfg.pair j && k != j
 
+def Why.isLater : Why → Bool
+  | .later => true
+  | _ => false
+
+/-- The returned messages that oblige `j` when `j` is sent.  An obligation that stems from a notifying
+method (`fan g`) is judged at the level of the API: for a directed message against the begin of its sending
+call, for a per-session copy of a fan-out against the begin of ITS notifying method (`fcall`), not against
+the send the method makes internally.  Obligations between sends (`later`) are judged send against send. -/
+def FMon.owed (cfg : Cfg) (m : FMon) (j : Nat) (atApi : Bool) : List (Nat × Nat × Why) :=
+  (m.returned.filter fun r => cfg.obliges j r.1 && (r.2.isLater != atApi || (cfg.grp j).isNone)).map fun r => (r.1, j, r.2)
+
 /-- C03 on a log: when the handler of `j` starts, the handler of every notification (or `initialize`) of
 the same pair whose sending call — or the notifying method it is a copy of — had returned before `j` was
 sent, or which stands before `j` in the body that carried both, has finished. -/
 def FMon.step (cfg : Cfg) (m : FMon) : FEv → FMon
-  | .msg (.snd j) =>
-    { m with sentAfter := m.sentAfter ++ (m.returned.filter fun r => cfg.obliges j r.1).map fun r => (r.1, j, r.2) }
+  | .msg (.snd j) => { m with sentAfter := m.sentAfter ++ m.owed cfg j false }
   | .msg (.bsnd ps j) =>
-    { m with sentAfter := m.sentAfter ++ ((m.returned.filter fun r => cfg.obliges j r.1).map fun r => (r.1, j, r.2))
+    { m with sentAfter := m.sentAfter ++ m.owed cfg j false
                             ++ ((ps.filter fun k => cfg.obliges j k).map fun k => (k, j, Why.body)) }
   | .msg (.ret i) => { m with returned := (i, .later) :: m.returned }
   | .msg (.beg j) =>
@@ -61,10 +73,10 @@ def FMon.step (cfg : Cfg) (m : FMon) : FEv → FMon
       | some p => { m with bad := some p }
       | none => m
   | .msg (.fin i) => { m with finished := i :: m.finished }
-  | .fcall _ => m
+  | .fcall g => { m with sentAfter := m.sentAfter ++ ((cfg.copies g).filter fun c => cfg.grp c == some g).flatMap fun c => m.owed cfg c true }
   | .ferr c => { m with failed := c :: m.failed }
   | .fret g =>
-    { m with returned := (((cfg.copies g).filter fun c => !m.failed.contains c).map fun c => (c, Why.fan g)) ++ m.returned }
+    { m with returned := (((cfg.copies g).filter fun c => cfg.grp c == some g && !m.failed.contains c).map fun c => (c, Why.fan g)) ++ m.returned }
 
 def fmonitor (cfg : Cfg) (evs : List FEv) : FMon := evs.foldl (FMon.step cfg) {}
 
